@@ -16,7 +16,7 @@ Lemma saam_twin2 k_ax k_ay k_az k_mx k_my k_mz ax ay az mx my mz : nz3 ax ay az 
   C07_saam_b2_R k_ax k_ay k_az k_mx k_my k_mz ax ay az mx my mz = C07_saam_s_R ax ay az mx my mz.
 Proof. unfold nz3. intros Ha Hm. unfold C07_saam_b2_R, C07_saam_s_R. twin_q. Qed.
 Lemma tilt_nomag_twin ax ay az : nz3 ax ay az -> C07_tilt_nomag_b1_R ax ay az = C07_tilt_nomag_s_R ax ay az.
-Proof. unfold nz3. intros Ha. unfold C07_tilt_nomag_b1_R, C07_tilt_nomag_s_R. twin_q. Qed.
+Proof. unfold nz3. intros Ha. unfold C07_tilt_nomag_b1_R, C07_tilt_nomag_s_R. first [twin_q | twin_tilt_unit]. Qed.
 Lemma tilt_angles_twin ax ay az mx my mz : nz3 ax ay az -> nz3 mx my mz ->
   C07_tilt_angles_b1_R ax ay az mx my mz = C07_tilt_angles_s_R ax ay az mx my mz.
 Proof. unfold nz3. intros Ha Hm. unfold C07_tilt_angles_b1_R, C07_tilt_angles_s_R. twin_a2. Qed.
@@ -25,7 +25,7 @@ Lemma tilt_angles_twin2 k_ax k_ay k_az k_mx k_my k_mz ax ay az mx my mz : nz3 ax
 Proof. unfold nz3. intros Ha Hm. unfold C07_tilt_angles_b2_R, C07_tilt_angles_s_R. twin_a2. Qed.
 Lemma tilt_quaternion_twin ax ay az mx my mz : nz3 ax ay az -> nz3 mx my mz ->
   C07_tilt_quaternion_b1_R ax ay az mx my mz = C07_tilt_quaternion_s_R ax ay az mx my mz.
-Proof. unfold nz3. intros Ha Hm. unfold C07_tilt_quaternion_b1_R, C07_tilt_quaternion_s_R. twin_tilt. Qed.
+Proof. unfold nz3. intros Ha Hm. unfold C07_tilt_quaternion_b1_R, C07_tilt_quaternion_s_R. first [twin_tilt | twin_tilt_unit]. Qed.
 
 (* loop-style estimator: the batch calls estimate() per row; a one-row batch is the one-sample call *)
 Lemma famc_twin ax ay az mx my mz : C07_famc_b1_R ax ay az mx my mz = C07_famc_s_R ax ay az mx my mz.
